@@ -147,8 +147,12 @@ func runC34Quota(r *Run) {
 			r.Fail("quota-exceeded", "upper-bound", "group %s (address %s): %d connections admitted within %v of its first event; burst %d + rate %v x elapsed allows %.2f (event #%d)", g, e.ip, st.allowed, e.at-st.first, burst, ops, limit, i)
 			return
 		}
-		if st.seen <= burst && !e.allowed {
-			r.Fail("fresh-group-blocked", "independence", "event #%d from %s is attempt %d of group %s (burst %d) and was blocked: another group's traffic consumed its budget", i, e.ip, st.seen, g, burst)
+	}
+	// independence: whatever other groups did, a group gets at least its burst. (Counted per
+	// group over the run: attempts issued at one instant may be decided in any order.)
+	for g, st := range groups {
+		if want := min(burst, st.seen); st.allowed < want {
+			r.Fail("fresh-group-blocked", "independence", "group %s made %d attempts (burst %d) and only %d were admitted: another group's traffic consumed its budget", g, st.seen, burst, st.allowed)
 			return
 		}
 	}
